@@ -181,7 +181,7 @@ func init() {
 	// MultiScalarMult / MultiScalarMultVartime for list lengths above the ones proved (4..8)
 	boundedHarnesses["msm_lengths"] = boundedHarness{
 		pkgDir: ".",
-		bound:  "list lengths 4..40 (every length) with 12 input patterns each (random; a zero scalar; all scalars zero; an identity point; two equal points; P and -P with equal scalars; s and -s on equal points; receiver = last point; receiver = first point; all points the identity; all scalars N-1; the same Point object twice), and lengths 63..66, 95..97, 127..130, 255..257 with 4 patterns (random; a zero scalar; receiver = last point; two equal points); both functions; deterministic inputs; results compared with the sum of ScalarMult results",
+		bound:  "list lengths 4..40 (every length) with 15 input patterns each (random; a zero scalar; all scalars zero; an identity point; two equal points; P and -P with equal scalars; s and -s on equal points; receiver = last point; receiver = first point; all points the identity; all scalars N-1; the same Point object twice; short scalars of varying bit length; one-hot scalars 2^k; single-nibble scalars), and lengths 63..66, 95..97, 127..130, 255..257 with 5 patterns (random; a zero scalar; receiver = last point; two equal points; short scalars); both functions; deterministic inputs; results compared with the sum of ScalarMult results",
 		src: `package secp256k1
 
 import (
@@ -208,6 +208,22 @@ func TestVerifBoundedMSMLengths(t *testing.T) {
 		return s
 	}
 	rndPoint := func() *Point { return NewIdentityPoint().ScalarBaseMult(rndScalar()) }
+	// a scalar of exactly the given bit length (1..255), otherwise random
+	bitsScalar := func(bits int) *Scalar {
+		var b [8]byte
+		ctr++
+		binary.BigEndian.PutUint64(b[:], ctr)
+		h := sha256.Sum256(b[:])
+		nb := (bits + 7) / 8
+		for i := 0; i < 32-nb; i++ {
+			h[i] = 0
+		}
+		top := uint(bits - 1) % 8
+		h[32-nb] &= byte(1<<(top+1) - 1)
+		h[32-nb] |= byte(1 << top)
+		s, _ := NewScalarFromBytes(&h)
+		return s
+	}
 	nMinus1 := NewScalar().Negate(NewScalar().One())
 	var lens []int
 	for n := 4; n <= 40; n++ {
@@ -215,9 +231,9 @@ func TestVerifBoundedMSMLengths(t *testing.T) {
 	}
 	lens = append(lens, 63, 64, 65, 66, 95, 96, 97, 127, 128, 129, 130, 255, 256, 257)
 	for _, n := range lens {
-		pats := []int{0, 1, 2, 3, 4, 5, 6, 7, 8, 9, 10, 11}
+		pats := []int{0, 1, 2, 3, 4, 5, 6, 7, 8, 9, 10, 11, 12, 13, 14}
 		if n > 40 {
-			pats = []int{0, 1, 7, 4}
+			pats = []int{0, 1, 7, 4, 12}
 		}
 		for _, pat := range pats {
 			for seed := n % 3; seed <= n%3; seed++ {
@@ -259,6 +275,27 @@ func TestVerifBoundedMSMLengths(t *testing.T) {
 						}
 					case 11:
 						ps[2] = ps[0]
+					case 12:
+						// short scalars: the longest one has a bit length that runs through every residue mod 8 as n
+						// varies (the most significant window is a high nibble, a low nibble, a byte boundary ...)
+						for i := range ss {
+							ss[i] = bitsScalar(1 + (n*3+i*11)%(9+(n*7)%120))
+						}
+					case 13:
+						// one-hot scalars 2^k
+						for i := range ss {
+							k := (n*5 + i*29) % 255
+							var b [32]byte
+							b[31-k/8] = 1 << (uint(k) % 8)
+							ss[i], _ = NewScalarFromBytes(&b)
+						}
+					case 14:
+						// single-nibble scalars 0..15
+						for i := range ss {
+							var b [32]byte
+							b[31] = byte((n + i*7) % 16)
+							ss[i], _ = NewScalarFromBytes(&b)
+						}
 					}
 					want := NewIdentityPoint()
 					for i := range ss {
